@@ -134,7 +134,7 @@ class JSONDriver(BaseDriver):
             id_ = filt.pop('id')
 
             record = coll.get(id_)
-            if record is not None:
+            if (record is not None) and self._filter_matches(record, filt):
                 record.update(record_part)
                 modified_count = 1
         else:  # no single specific id in filt
